@@ -822,6 +822,8 @@ class SgzReader(object):
             min_xl = self.blockshape[1] * (xl // self.blockshape[1])
             min_sample_id = 0 if min_sample_id is None else min_sample_id
             max_sample_id = self.n_samples if max_sample_id is None else max_sample_id
+            if not 0 <= min_sample_id < max_sample_id <= self.n_samples:
+                raise IndexError(self.range_error.format((min_sample_id, max_sample_id), 0, self.n_samples))
 
             min_z = self.blockshape[2] * (min_sample_id // self.blockshape[2])
             max_z = self.blockshape[2] * ((max_sample_id + self.blockshape[2] - 1) // self.blockshape[2])
